@@ -378,6 +378,8 @@ class DavSys:
                 info["success"] = True
                 self.model[coll] = None
                 self.commits_seen.pop(coll, None)
+                if coll == "cal":
+                    self.tokens = []  # tokens of an earlier incarnation of the URL are nobody's business any more
         elif kind == "proppatch":
             _, coll, pkey, value = op
             target_coll = coll
@@ -521,6 +523,14 @@ class DavSys:
                 self.audit_views(coll, a, sorted(names))
             if "git" in feats and a["exists"]:
                 a["git"] = self.audit_git(coll)
+            if "C08" in self.cfg.oracles and a["exists"]:
+                # the tags once more, after all the reads of this audit (and asked for on their own)
+                r2 = self.req("PROPFIND", base, dict(dav.XML_CT, Depth="0"), dav.propfind_body([dav.P_GETETAG, dav.P_CTAG_CS, dav.P_CTAG_DAV, dav.P_SYNCTOKEN]))
+                if r2.status == 207:
+                    ms2 = dav.parse_multistatus(r2.body)
+                    if not ms2.parse_error and ms2.responses:
+                        x = ms2.responses[0]
+                        a["tags_after"] = {"ctag_cs": x.prop_text(dav.P_CTAG_CS), "ctag_dav": x.prop_text(dav.P_CTAG_DAV), "sync": x.prop_text(dav.P_SYNCTOKEN), "etag": x.prop_text(dav.P_GETETAG)}
             out[coll] = a
         return out
 
@@ -629,7 +639,7 @@ class DavSys:
         if "C08" in orc:
             self.check_c08(op, info, prev, audit, tcoll)
         if "C09" in orc:
-            self.check_c09(op, info, prev, audit, tcoll, tname)
+            self.check_c09(op, info, prev, audit, tcoll, tname, model_before)
         if "C06" in orc:
             self.check_c06(op, info, resp, prev, audit, tcoll, tname)
         if "C15" in orc:
@@ -787,6 +797,8 @@ class DavSys:
                 self.violation("C08", "tag-views-disagree", "getctag/sync-token/getetag of a collection disagree: %r" % t, {"op": op, "coll": coll})
                 continue
             tag = t["sync"]
+            if a.get("tags_after") is not None and a["tags_after"] != t:
+                self.violation("C08", "tag-changed-by-read:audit", "the tags read before and after the audit's own reads (PROPFIND of all properties, GET, reports) differ: %r then %r" % (t, a["tags_after"]), {"op": op, "coll": coll})
             state = self.coll_state(coll, a)
             # versioned metadata is part of what a git tag covers
             meta = tuple(sorted(self.model[coll]["props"].items())) if self.model.get(coll) else ()
@@ -807,7 +819,20 @@ class DavSys:
                 elif coll != tcoll:
                     self.violation("C08", "tag-changed-by-other-collection:%s" % kind, "a write to %s changed the tag of %s" % (tcoll, coll), {"op": op})
 
-    def check_c09(self, op, info, prev, audit, tcoll, tname):
+    def _members_differ(self, before, after):
+        """Model-level member maps differ in more than formatting (a re-serialised copy of the stored calendar is a no-op rewrite)."""
+        b, a = dict(before), dict(after)
+        if set(b) != set(a):
+            return True
+        for nm in b:
+            if b[nm] == a[nm]:
+                continue
+            x, y = B.ALL_BODIES.get(b[nm]), B.ALL_BODIES.get(a[nm])
+            if x is None or y is None or not self.content_matches(nm, x, y):
+                return True
+        return False
+
+    def check_c09(self, op, info, prev, audit, tcoll, tname, model_before=None):
         kind = op[0]
         for coll in ("cal", "ab", "c2"):
             a = audit[coll]
@@ -837,6 +862,14 @@ class DavSys:
             versioned_before = (tuple(sorted(pa["listing"].items())), self.versioned_meta(pa))
             versioned_after = (tuple(sorted(a["listing"].items())), self.versioned_meta(a))
             expected = 1 if versioned_before != versioned_after else 0
+            if delta == 0 and coll == tcoll and info.get("success") and model_before is not None and kind in ("put", "delete", "post", "proppatch"):
+                # "every successful change adds exactly one commit": the request was acknowledged and, by the reference model, it
+                # changed the members (or a property kept in the tree) - judged by the model, so that a write that was
+                # acknowledged but silently not applied cannot hide behind "nothing observable changed, nothing committed"
+                mb = dict((x[0], x) for x in model_before).get(coll)
+                ma = dict((x[0], x) for x in self.model_canon()).get(coll)
+                if mb is not None and ma is not None and len(mb) == 4 and len(ma) == 4 and (self._members_differ(mb[2], ma[2]) or (kind == "proppatch" and self.cfg.metadata == "file" and mb[3] != ma[3])):
+                    self.violation("C09", "acknowledged-change-without-commit:%s" % kind, "the request was acknowledged (%s) and changes the collection, but no commit was added" % info.get("status"), {"op": op, "coll": coll, "info": info})
             if delta != expected:
                 self.violation("C09", "commit-count:%s:expected+%d:got%+d" % (kind, expected, delta), "request changed versioned state=%s but added %d commits" % (bool(expected), delta), {"op": op, "coll": coll, "info": info})
             if delta >= 1 and pcommits:
@@ -1054,6 +1087,8 @@ def default_ops(s):
                 if names and bods:
                     ops.append(("put", "c2", names[0], bods[0]))
                     ops.append(("delete", "c2", names[0]))
+            elif coll == "cal" and "recreate" in cfg.features:
+                ops.append(("mkcalendar", "cal"))
             continue
         for nm in names:
             for b in bods:
@@ -1069,6 +1104,8 @@ def default_ops(s):
             ops.append(("delcoll", "c2"))
             ops.append(("mkcalendar", "c2"))
             ops.append(("mkcol", "c2"))
+        elif coll == "cal" and "recreate" in cfg.features:
+            ops.append(("delcoll", "cal"))  # the same URL deleted and made again: a new collection behind an old name
         for pk, vals in cfg.props.get(coll, {}).items():
             for v in vals:
                 ops.append(("proppatch", coll, pk, v))
